@@ -4,7 +4,7 @@ CONSTANTS
   MaxLen = 5
   Widths = {1,2,3,4}
   Slides = {1,2,3}
-  NeModes = {TRUE, FALSE}
+  Strategies <- StratDefault
   FixEvict = TRUE
-INVARIANTS ContentExact Monotone ExactlyOnce UniqueKeys FlushExact
+INVARIANTS ContentExact StrategyPost Monotone ExactlyOnce UniqueKeys FlushExact
 CHECK_DEADLOCK FALSE
